@@ -96,4 +96,32 @@ theorem allOf_counts_iff (mn₁ mx₁ mn₂ mx₂ : Option Nat) (n : Nat) :
     BoundM.okCount (BoundM.mergeMin mn₁ mn₂) (BoundM.mergeMax mx₁ mx₂) n ↔
       BoundM.okCount mn₁ mx₁ n ∧ BoundM.okCount mn₂ mx₂ n := BoundM.mergeCount_iff mn₁ mx₁ mn₂ mx₂ n
 
+/-- the `enum` lists of an allOf merge: a value is admitted by the merged list iff both members admit it (a member
+    without `enum` admits everything) … -/
+theorem allOf_enum_iff (e₁ e₂ r : List Nat) (v : Nat) (h : BoundM.mergeEnums e₁ e₂ = some r) :
+    BoundM.okEnum r v ↔ BoundM.okEnum e₁ v ∧ BoundM.okEnum e₂ v := BoundM.mergeEnums_iff e₁ e₂ r v h
+
+/-- … and the merge is refused (at generation time) exactly when both members list values and share none -/
+theorem allOf_enum_refused_iff (e₁ e₂ : List Nat) :
+    BoundM.mergeEnums e₁ e₂ = none ↔ e₁ ≠ [] ∧ e₂ ≠ [] ∧ ∀ v, ¬ (v ∈ e₁ ∧ v ∈ e₂) := BoundM.mergeEnums_none_iff e₁ e₂
+
+/-- `required` of an allOf merge (partial: the parser's flags agree with the `required` lists and every required
+    name is declared by some member — without the second hypothesis the statement is false, K20): the merged object
+    demands exactly the names either member requires, and keeps the members' properties in order -/
+theorem allOf_required_iff_partial (p₁ p₂ : List BoundM.Prp) (r₁ r₂ : List Nat) (K : Nat → Prop)
+    (hc₁ : ∀ p ∈ p₁, p.2 = true → p.1 ∈ r₁) (hc₂ : ∀ p ∈ p₂, p.2 = true → p.1 ∈ r₂)
+    (hd : ∀ n, n ∈ r₁ ++ r₂ → n ∈ BoundM.names p₁ ∨ n ∈ BoundM.names p₂) :
+    BoundM.demands (BoundM.mergeProps p₁ p₂ (r₁ ++ r₂)) K ↔ (∀ n ∈ r₁, K n) ∧ (∀ n ∈ r₂, K n) :=
+  BoundM.mergeProps_required_iff p₁ p₂ r₁ r₂ K hc₁ hc₂ hd
+
+theorem allOf_property_order (p₁ p₂ : List BoundM.Prp) (req : List Nat) :
+    BoundM.names (BoundM.mergeProps p₁ p₂ req) =
+      BoundM.names p₁ ++ (BoundM.names p₂).filter (fun n => !(BoundM.names p₁).contains n) :=
+  BoundM.mergeProps_names p₁ p₂ req
+
+/-- K20 in the model: a required name that no member declares is demanded by nobody (witness) -/
+theorem required_ghost_not_demanded :
+    BoundM.demands (BoundM.mergeProps [(0, false)] [] ([1] ++ [])) (fun n => n = 0) ∧
+      ¬ (∀ n ∈ [1], (fun n => n = 0) n) := BoundM.ghost_required_not_demanded
+
 end C03
